@@ -189,7 +189,9 @@ def spectrum(ctx, N, cls_qual=PCOVR, label="PCovR"):
             okV = "::-1" in tV or "flip" in tV
             ctx.ob("R-SPECTRUM", f"{label}: ARPACK output reversed consistently (S, columns of U, rows of Vt)", okS and okU and okV, f"S reversed={okS} U reversed={okU} Vt reversed={okV}", site)
         sinks = [e for e in I.events[lo:] if e["kind"] == "rng-sink"]
-        seeds_ok = all((e["seed"] is not None and "seed" in repr(e["seed"].term)) or (e.get("v0") is not None and "seed" in repr(e["v0"].term)) for e in sinks)
+        from .. import tq
+
+        seeds_ok = all((e["seed"] is not None and tq.has_sym(e["seed"].term, "seed")) or (e.get("v0") is not None and tq.has_sym(e["v0"].term, "seed")) for e in sinks)
         ctx.ob("R-SPECTRUM", f"{label}._decompose_truncated[{solver}] seeded from random_state", len(sinks) == 1 and seeds_ok, f"{[(e['fn'], None if e['seed'] is None else repr(e['seed'].term), None if e.get('v0') is None else repr(e['v0'].term)[:80]) for e in sinks]}", site)
 
 
@@ -208,6 +210,6 @@ def _k_only_in_outer_slice(t):
         return False
     core = core.args[0]
     for x in core.walk():
-        if x.op == "dim" and "K" in repr(x.args[0]):
+        if x.op == "dim" and __import__("sa.tq", fromlist=["x"])._dim_mentions(x.args[0], "K"):
             return False
     return True
